@@ -58,7 +58,21 @@ var round5Additions = map[string]string{
 	"C17": "Round-5 additions: every increment of a drawn tower height is dominated by level < maxLevel (SKIP.RANDLEVEL).",
 }
 
+// Additions for the rules written after reading the silent survivors of the mutation sweep (mutation/SURVIVORS.md).
+var round6Additions = map[string]string{
+	"C01": "Additions after the survivor triage: every non-empty list enters the k-way merge (KWAY.FEED); table files are loaded in (level, index) order (RECOVER.ORDER); a length prefix is the length of the bytes written right after it (CODEC.LENOF); a successor's key is read only behind the nil test of that successor (SKIP.NILGUARD).",
+	"C02": "Additions after the survivor triage: RECOVER.ORDER, CODEC.LENOF.",
+	"C09": "Additions after the survivor triage: KWAY.FEED.",
+	"C11": "Additions after the survivor triage: CODEC.LENOF.",
+	"C17": "Additions after the survivor triage: SKIP.NILGUARD; the drawn tower height starts at 1 (SKIP.RANDLEVEL).",
+}
+
 func init() {
+	for _, pr := range properties {
+		if add, ok := round6Additions[pr.ID]; ok {
+			defer func(pr *Property, add string) { pr.Explanation += " " + add }(pr, add)
+		}
+	}
 	for _, pr := range properties {
 		if add, ok := round5Additions[pr.ID]; ok {
 			defer func(pr *Property, add string) { pr.Explanation += " " + add }(pr, add)
